@@ -309,8 +309,69 @@ def h12c_order(k0: int, k1: int, k2: int, k3: int, v0: int, v1: int, v2: int, v3
         return True
 
 
+# ---- peer requests are answered at every point of the session, also while hello/login is pending
+def h12e_during_login(kind: int, pos: int, chunking: int, login: bool) -> bool:
+    """
+    pre: 0 <= kind <= 2
+    pre: 0 <= pos <= 3
+    pre: 0 <= chunking <= 2
+    post: _
+    """
+    from vf import refcodec as R
+    from vf import scen
+
+    track.entered()
+    k = concretize(kind, 2)
+    ps = concretize(pos, 3)
+    ch = concretize(chunking, 2)
+    w = scen.World()
+    try:
+        conn = w.new_connection()
+        w.connect_mode = "ok"
+
+        async def full():
+            await conn.start_connection()
+            await conn.finish_connection(login=login)
+
+        t = w.task(full())
+        w.loop.run_ready()  # hello (and connect) request written, responses pending
+        req = (scen.PING_REQ, scen.frame(pb.GetTimeRequest()), scen.DISC_REQ)[k]
+        reply_id = (8, 37, 6)[k]
+        seq = [scen.HELLO_OK] + ([scen.CONNECT_OK] if login else [])
+        at = min(ps, len(seq))  # 0: before the hello response ... len(seq): right after the last response
+        seq = seq[:at] + [req] + seq[at:]
+        if ch == 0:
+            w.feed(b"".join(seq))
+        else:
+            for fr in seq:
+                if not w.feed(fr):
+                    break
+                if ch == 2:
+                    w.loop.run_ready()
+        w.loop.run_ready()
+        if track.reached():
+            return False
+        frames = R.dec_plain_stream_strict(w.transport.written())
+        if frames is None:
+            return track.fail("written bytes are not well-formed frames")
+        ids = [tid for tid, _p in frames]
+        if ids.count(reply_id) != 1:
+            return track.fail(f"peer request {('ping', 'time', 'disconnect')[k]} at position {at} (chunking {ch}, login={login}) was answered {ids.count(reply_id)} times; written ids={ids}")
+        if k == 2:
+            if conn.connection_state is not ConnectionState.CLOSED:
+                return track.fail("DisconnectRequest during hello/login did not close the connection")
+            if w.stops and w.stops != [True]:
+                return track.fail(f"DisconnectRequest: stop callback calls {w.stops}")
+            if ids[-1] != 6:
+                return track.fail("something was written after the DisconnectResponse")
+        return True
+    finally:
+        w.close()
+
+
 def shards(tier: str) -> list:
     out = []
+    out.append({"fn": "h12e_during_login", "env": {}, "cond_timeout": 300, "desc": "ping / time / disconnect request arriving before, between and right after the hello and login responses (same chunk, same turn, separate turns)"})
     for pk in (0, 1, 2):
         out.append({"fn": "h12a_step", "env": {"PKIND": pk, "TBITS": 64}, "cond_timeout": 400,
                     "desc": f"process_packet for every type number in [0, 2^64), payload kind {('empty', 'valid non-empty', 'undecodable')[pk]}"})
